@@ -124,6 +124,8 @@ theorem C05_repeat_restores (cfg : ECfg) (al : List (Str × Val)) (f id : Nat) (
       | exact rk_pure _
       | exact rk_unsupported _
       | exact rk_modEnv _ (fun _ => ⟨rfl, rfl⟩)
+      | exact rk_get
+      | exact rk_modify _ (fun _ => rfl)
       | exact rk_forM _ _ (fun a => rk_setVar _ _)
       | exact (rk_all cfg f).2.2.2 al _ _ _ _ _ _ _
       | intro _
@@ -145,8 +147,8 @@ theorem C08_empty_renders_nothing (cfg : ECfg) (al : List (Str × Val)) (f id : 
     rw [mGet_bind]
     simp only [bind, hv, hrep, pure]
     rcases hempty with h | h | h <;> subst h <;>
-      simp only [evalRepeat, modEnv, mModify, forM_single, setVar, bind, pure, restore, List.length_nil] <;>
-      (cases hold : s.env.get nm.str <;> simp [setVar, delVar, modEnv, mModify, forM_single, bind, pure])
+      simp only [evalRepeat, modEnv, mModify, mGet, forM_single, setVar, bind, pure, restore, List.length_nil] <;>
+      (cases hold : s.env.get nm.str <;> simp [setVar, delVar, modEnv, mModify, mGet, forM_single, bind, pure])
   obtain ⟨s', hs', hstr⟩ := hstep
   exact ⟨s', hs', hstr, C05_repeat_restores cfg al (f + 1) id nm e ws node s s' hs'⟩
 
